@@ -1,15 +1,16 @@
 #!/bin/bash
-# tools/sens.sh ID [diff...] : apply each mutant (or seeded patch) to /repo, run the quick check, expect exit 1, revert.
-# Development tooling only (never used by a registered command). Serialises on a lock because it edits /repo.
+# tools/sens.sh ID [diff...] : apply each mutant (or seeded patch) to $R, run the quick check, expect exit 1, revert.
+# Development tooling only (never used by a registered command). Serialises on a lock because it edits $R.
 ID=$1; shift
-cd /verif
-exec 9>/var/tmp/verif-sens.lock; flock 9
-if [ -n "$(git -C /repo status --porcelain)" ]; then echo "/repo not clean"; exit 3; fi
+R=${VERIF_REPO:-/repo}
+cd ${VERIF_ROOT:-/verif}
+exec 9>/var/tmp/verif-sens-$(echo $R | tr / _).lock; flock 9
+if [ -n "$(git -C $R status --porcelain)" ]; then echo "$R not clean"; exit 3; fi
 FILES=("$@"); [ ${#FILES[@]} -eq 0 ] && FILES=(mutants/$ID/*.diff)
 for f in "${FILES[@]}"; do
-  if ! git -C /repo apply "$(realpath $f)"; then echo "SENS $ID $(basename $f): PATCH-FAILED"; continue; fi
+  if ! git -C $R apply "$(realpath $f)"; then echo "SENS $ID $(basename $f): PATCH-FAILED"; continue; fi
   out=$(VERIF_SEED=${VERIF_SEED:-7} ./check.sh $ID ${TIER:-quick} 2>&1); rc=$?
-  git -C /repo checkout -- . ; git -C /repo clean -fdq
+  git -C $R checkout -- . ; git -C $R clean -fdq
   v=$(echo "$out" | grep -c '^VIOLATION')
   if [ $rc -eq 1 ] && [ $v -ge 1 ]; then echo "SENS $ID $(basename $f): CAUGHT"; else echo "SENS $ID $(basename $f): MISSED rc=$rc"; echo "$out" | tail -15 | sed 's/^/    /'; fi
   [ -n "${SENS_VERBOSE:-}" ] && echo "$out" | tail -30
